@@ -57,6 +57,16 @@ def shard(arg):
     with WorkerSet(interps, hooks=False) as ws:
         def check_case(prog):
             viols, stats = run_prog_everywhere(ws, prog, cfg, out, interps)
+            if cfg.get("layout_twin") and not viols:
+                # the same bytecode with another line table, in the same long-lived workers: whatever is remembered
+                # per code object must not be keyed by code equality
+                twin = withprog.layout_twin(prog)
+                if twin is not None:
+                    v2, s2 = run_prog_everywhere(ws, twin, cfg, out, interps)
+                    out.hist["layout_twins_run"] += 1
+                    for v in v2:
+                        v["desc"] = "layout twin (same bytecode, other line table): " + v["desc"]
+                    viols = viols + v2
             feats = withprog.features(prog)
             nontrivial, classes = mod.classify(prog, stats, feats)
             out.note_case(prog, nontrivial, classes=sorted(classes) + sorted(feats), n_eval=len(interps),
